@@ -1421,7 +1421,19 @@ impl<'de, R: Read<'de>> Parser<R> {
     }
 
     #[cfg(feature = "fast-float-parsing")]
-    fn f64_from_parts(&mut self, pos: bool, significand: u64, mut exponent: i32) -> Result<f64> {
+    fn f64_from_parts(
+        &mut self,
+        pos: bool,
+        mut significand: u64,
+        mut exponent: i32,
+    ) -> Result<f64> {
+        // Trailing zeros of the fraction (`8000000000000020.0`, which is how
+        // the printer writes an integral float) only inflate the significand
+        // beyond what a double holds exactly; fold them into the exponent.
+        while exponent < 0 && significand != 0 && significand % 10 == 0 {
+            significand /= 10;
+            exponent += 1;
+        }
         let mut f = significand as f64;
         loop {
             match POW10.get(exponent.unsigned_abs() as usize) {
